@@ -94,6 +94,10 @@ class Interp:
                     raise Unsupported("truthiness of %s with __bool__/__len__" % o.cls)
                 return True
             return True
+        if isinstance(v, VOpaque) and self.E.contract_of(v.tag + ".__len__"):
+            # a container known only through its contracts: truthiness is len() != 0
+            n = self.call_value(VFunc(v.tag + ".__len__", v), [], {}, getattr(self, "cur_fr", None), "truthy")
+            return simp(zint(n.t) != 0)
         if isinstance(v, (VFunc, VClass, VModule, VOpaque, VExc)):
             return True
         raise Unsupported("truthy %r" % (v,))
@@ -720,6 +724,8 @@ class Interp:
             hi = self.eval(e.slice.upper, fr) if e.slice.upper is not None else None
             if e.slice.step is not None:
                 raise Unsupported("slice step")
+            if isinstance(base, VOpaque) and self.E.contract_of(base.tag + ".__getslice__"):
+                return self.call_value(VFunc(base.tag + ".__getslice__", base), [lo if lo is not None else NONE, hi if hi is not None else NONE], {}, fr, site)
             return self.py_slice(base, lo, hi, fr)
         idx = self.eval(e.slice, fr)
         return self.py_index(base, idx, fr, site)
@@ -1377,6 +1383,7 @@ class Interp:
             self.exec_stmt(s, fr)
 
     def exec_stmt(self, s, fr):
+        self.cur_fr = fr
         self.st.steps += 1
         if self.st.steps > MAX_STEPS:
             raise Unsupported("step limit")
